@@ -339,6 +339,12 @@ def run(ctx):
             if okb:
                 okb = sf_ == (lin.p_atom("(%s)->start" % E) if ps_ else {}) and ef_ == (lin.p_add(lin.p_atom("(%s)->start" % E), lin.p_atom("(%s)->duration" % E)) if pd_ else lin.p_const(2147483647))
     ctx.check(a5, okb and nb_ >= 4, key(f, "bounds"), f.where(f.root), "phone bounds are %s" % sorted(set(st), key=str))
+    # ... and nothing else writes the bounds: they are what keeps the second pass inside the first pass's words
+    inloop = set(f.walk(bl[0])) if len(bl) == 1 else set()
+    for g_ in sa.values():
+        for s_ in paths.stores(g_):
+            if re.match(r"^sas->(sf|ef)\[", s_["path"]) and not (g_ is f and s_["node"] in inloop):
+                ctx.bad(a5, key(g_, "bounds-writer:%s" % s_["path"][:30]), g_.where(s_["node"]), "`%s` is written outside the loop that takes the bounds from the phone entries: the phone may then be active outside the span the first pass gave its word" % s_["path"])
     hi = f.calls("hmm_init")
     ctx.check(a5, len(hi) == 1 and [f.canon(x, subst=False) for x in f.args(hi[0])] == ["sas->hmmctx", "&sas->hmms[i]", "0", "ent->id.pid.ssid", "ent->id.pid.tmatid"], key(f, "models"), f.where(f.root), "HMM i is not initialised from phone entry i")
     ev = [v for v in f.find("Var") if f.nodes[v]["name"] == "ent"]
